@@ -384,7 +384,112 @@ def register(ex):
     ex.probe("trainSymncoTupleStartAug", "Bool", "true", "symnco/model.py  reward and log-likelihood regrouped with `unbatchify(x, (n_start, n_aug))` (as coded; see the C16 finding)",
              boolean(sym_tuple))
 
+    # ---------------- symnco losses ----------------
+    SL = "rl4co/models/zoo/symnco/losses.py"
+
+    def sig_default(rel, qual, arg):
+        fn = fn_of(rel, qual)
+        if fn is None:
+            return None
+        names = [a.arg for a in fn.args.args]
+        if arg not in names:
+            return None
+        k = names.index(arg) - (len(names) - len(fn.args.defaults))
+        if k < 0:
+            return None
+        d = fn.args.defaults[k]
+        try:
+            return ast.literal_eval(d)
+        except Exception:
+            return None
+
+    def sym_body(qual):
+        """tag of the three statements of a symmetricity loss: advantage, loss, return"""
+        fn = fn_of(SL, qual)
+        if fn is None:
+            return None
+        adv = assigns(fn, "advantage")
+        lo = assigns(fn, "loss")
+        rets = [n(nd.value) for nd in ast.walk(fn) if isinstance(nd, ast.Return) and nd.value is not None and n(nd.value) != "0"]
+        if len(adv) != 1 or len(lo) != 1 or len(rets) != 1:
+            return None
+        a = {"reward-reward.mean(dim=dim,keepdim=True)": 0, "reward-reward.mean(dim=dim,keepdims=True)": 0,
+             "reward-reward.mean(dim=dim)": 1, "reward.mean(dim=dim,keepdim=True)-reward": 2}.get(n(adv[0][2]))
+        l = {"-advantage*log_likelihood": 0, "-(advantage*log_likelihood)": 0, "advantage*log_likelihood": 1}.get(n(lo[0][2]))
+        r = {"loss.mean()": 0, "loss.sum()": 1}.get(rets[0])
+        if a is None or l is None or r is None:
+            return None
+        return a * 100 + l * 10 + r
+
+    ex.probe("trainSymPsDim", "Nat", "1", "symnco/losses.py  default axis of problem_symmetricity_loss: `dim=1`",
+             nat(lambda: (lambda v: v if isinstance(v, int) and v >= 0 else None)(sig_default(SL, "problem_symmetricity_loss", "dim"))))
+    ex.probe("trainSymSsDimLast", "Bool", "true", "symnco/losses.py  default axis of solution_symmetricity_loss: `dim=-1`",
+             boolean(lambda: (lambda v: None if v is None else v == -1)(sig_default(SL, "solution_symmetricity_loss", "dim"))))
+    ex.probe("trainSymPsBodyTag", "Nat", "0", "symnco/losses.py:problem_symmetricity_loss  `advantage = reward - reward.mean(dim, keepdim=True); loss = -advantage * ll; return loss.mean()` (0); 100·adv + 10·sign + reduction otherwise",
+             nat(lambda: sym_body("problem_symmetricity_loss")))
+    ex.probe("trainSymSsBodyTag", "Nat", "0", "symnco/losses.py:solution_symmetricity_loss  same three statements (0)",
+             nat(lambda: sym_body("solution_symmetricity_loss")))
+    ex.probe("trainSymTotalTag", "Nat", "0", "symnco/model.py  `loss = loss_ps + self.beta * loss_ss + self.alpha * loss_inv` (0) | − alpha·inv (1) | inv dropped (2)",
+             nat(classify(SYM, "SymNCO.shared_step", "loss",
+                          {"loss_ps+self.beta*loss_ss+self.alpha*loss_inv": 0, "loss_ps+self.beta*loss_ss-self.alpha*loss_inv": 1,
+                           "loss_ps+self.beta*loss_ss": 2})))
+
+    def sym_guard(target, var):
+        def run():
+            fn = fn_of(SYM, "SymNCO.shared_step")
+            if fn is None:
+                return None
+            a = assigns(fn, target)
+            if len(a) != 1 or not isinstance(a[0][2], ast.IfExp):
+                return None
+            t = a[0][2].test
+            if isinstance(t, ast.Compare) and len(t.ops) == 1 and n(t.left) == var and n(t.comparators[0]) == "1" and type(t.ops[0]) in ex.CMP:
+                return "." + ex.CMP[type(t.ops[0])]
+            return None
+
+        return run
+
+    ex.probe("trainSymGuardPs", "Cmp", ".gt", "symnco/model.py  `loss_ps = … if n_start > 1 else 0`", sym_guard("loss_ps", "n_start"))
+    ex.probe("trainSymGuardSs", "Cmp", ".gt", "symnco/model.py  `loss_ss = … if n_aug > 1 else 0`", sym_guard("loss_ss", "n_aug"))
+
+    def inv_pattern():
+        fn = fn_of(SL, "invariance_loss")
+        if fn is None:
+            return None
+        for nd in ast.walk(fn):
+            if isinstance(nd, ast.Call) and n(nd.func) == "rearrange" and len(nd.args) >= 2 and isinstance(nd.args[1], ast.Constant):
+                pat = str(nd.args[1].value).replace(" ", "")
+                return {"(ba)...->ba...": True, "(ab)...->ba...": False}.get(pat)
+        return None
+
+    ex.probe("trainSymInvBatchOuter", "Bool", "true", "symnco/losses.py:invariance_loss  `rearrange(proj_embed, '(b a) ... -> b a ...')` (instance-outer, as coded)",
+             boolean(inv_pattern))
+
     # ---------------- a2c.py ----------------
+    def a2c_default():
+        fn = fn_of(A2C, "A2C.__init__")
+        if fn is None:
+            return None
+        a = assigns(fn, "self.critic_optimizer_kwargs")
+        if len(a) != 1:
+            return None
+        return {"critic_optimizer_kwargsifcritic_optimizer_kwargsisnotNoneelseactor_optimizer_kwargs": True}.get(n(a[0][2]))
+
+    ex.probe("trainA2cCriticKwDefault", "Bool", "true", "a2c.py  critic optimizer kwargs default to the actor's when none are given",
+             boolean(a2c_default))
+
+    def a2c_groups():
+        fn = fn_of(A2C, "A2C.configure_optimizers")
+        if fn is None:
+            return None
+        a = assigns(fn, "parameters")
+        if len(a) != 1:
+            return None
+        return {"[{'params':self.policy.parameters(),**self.actor_optimizer_kwargs}]+[{'params':self.baseline.parameters(),**self.critic_optimizer_kwargs}]": True}.get(n(a[0][2]))
+
+    ex.probe("trainA2cGroups", "Bool", "true", "a2c.py:configure_optimizers  group 0 = policy with the actor kwargs, group 1 = baseline (critic) with the critic kwargs",
+             boolean(a2c_groups))
+
     def a2c_critic():
         fn = fn_of(A2C, "A2C.__init__")
         if fn is None:
